@@ -73,6 +73,21 @@ func (r *Req) Edit(xid uint32, mark byte) {
 	}
 }
 
+// SetKind makes the request a message of the k-th kind (DHCPv6: Solicit, Request, Renew, Rebind, Information-request,
+// Confirm, Release, Decline; DHCPv4: Discover, Request, Inform, Release, Decline).
+func (r Req) SetKind(k int) Req {
+	if r.V6 != nil {
+		t := []dhcpv6.MessageType{dhcpv6.MessageTypeSolicit, dhcpv6.MessageTypeRequest, dhcpv6.MessageTypeRenew, dhcpv6.MessageTypeRebind,
+			dhcpv6.MessageTypeInformationRequest, dhcpv6.MessageTypeConfirm, dhcpv6.MessageTypeRelease, dhcpv6.MessageTypeDecline}
+		r.V6.MessageType = t[k%len(t)]
+	}
+	if r.V4 != nil {
+		t := []dhcpv4.MessageType{dhcpv4.MessageTypeDiscover, dhcpv4.MessageTypeRequest, dhcpv4.MessageTypeInform, dhcpv4.MessageTypeRelease, dhcpv4.MessageTypeDecline}
+		r.V4.UpdateOption(dhcpv4.OptMessageType(t[k%len(t)]))
+	}
+	return r
+}
+
 func (r Req) Bytes() []byte {
 	if r.V4 != nil {
 		return r.V4.ToBytes()
